@@ -231,7 +231,7 @@ func buildWords(row rvref.Row, rd, rs1, rs2 uint32, all bool) []uint32 {
 
 func init() {
 	checks["C01"] = eng.Check{
-		Rule: "for RV32 and RV64 (all of I, M, A): (a) semantics: every mnemonic x distinct registers x immediate alphabets (22 twelve-bit, 14 branch, 15 jump, 8 upper immediates, every shift amount, 10 CSR numbers) x operand values V64^2 (26 boundary values; thorough ~190) x 2 addresses x 2 memory seeds; (b) aliasing: every mnemonic x all 4^3 register choices from {x0,x1,x2,x31} x 4^2 values; (c) every register number 0..31 in each field, and identical effects in all 4 extension subsets; (d) all 4096 I/S immediates, all 4096 branch offsets, all 4096 CSR numbers per mnemonic x 3 values (thorough: all 2^20 U and J immediates); (e) pc-relative instructions at 9 addresses up to the top of the address space; (f) history independence: for every mnemonic a FRESH parser first lifts the same word at another address and is then used for the case. A parser is never shared between goroutines. Lifted effects applied by the independent IR evaluator to the pre-state and compared with the reference interpreter on x1..x31, touched CSRs, written memory bytes and pc; keys must be x1..x31/csr0..csr4095/ip. Non-trivial = executed case inside the domain (no access straddling 2^XLEN).",
+		Rule: "for RV32 and RV64 (all of I, M, A): (a) semantics: every mnemonic x distinct registers x immediate alphabets (22 twelve-bit, 14 branch, 15 jump, 8 upper immediates, every shift amount, 10 CSR numbers) x operand values V64^2 (26 boundary values; thorough ~190) x 2 addresses x 2 memory seeds; (b) aliasing: every mnemonic x all 4^3 register choices from {x0,x1,x2,x31} x 7^2 values (incl. values whose low bytes are zero); (c) every register number 0..31 in each field, and identical effects in all 4 extension subsets; (d) all 4096 I/S immediates, all 4096 branch offsets, all 4096 CSR numbers per mnemonic x 3 values (thorough: all 2^20 U and J immediates); (e) pc-relative instructions at 9 addresses up to the top of the address space; (f) history independence: for every mnemonic a FRESH parser first lifts the same word at another address and is then used for the case. A parser is never shared between goroutines. Lifted effects applied by the independent IR evaluator to the pre-state and compared with the reference interpreter on x1..x31, touched CSRs, written memory bytes and pc; keys must be x1..x31/csr0..csr4095/ip. Non-trivial = executed case inside the domain (no access straddling 2^XLEN).",
 		Assumptions: []string{
 			"register/memory values are boundary alphabets, not all 2^64 values (the gadgets are covered for all width-1 operands by C11)",
 			"memory accesses straddling 2^XLEN are excluded",
@@ -293,7 +293,9 @@ func init() {
 			r.Sample(c01Case{Cfg: rvx.Cfg{XLEN: 64, M: true, A: true}, Word: 0x02209db3, Name: "mulh x27,x1,x2", PC: 0x1000, VA: 1 << 63, VB: 3, Seed: 1})
 			// (b) aliasing
 			rs := []uint32{0, 1, 2, 31}
-			av := []uint64{0, 5, 0xffffffffffffff80, 0x8000000000000001}
+			// ... values incl. some whose low byte(s) are zero: x0 is lifted as a ONE-byte zero, so a
+			// width taken from the wrong operand shows only on values living in the upper bytes
+			av := []uint64{0, 5, 0xffffffffffffff80, 0x8000000000000001, 0x100, 0xffffffff00000000, 0x8000000000000000}
 			r.Par(len(jobs), func(i int) {
 				j := jobs[i]
 				for _, rd := range rs {
